@@ -49,7 +49,13 @@ type Finding struct {
 	What      string `json:"what"`
 }
 
-const Root = "/verif"
+// Root is the framework directory (/verif, or a snapshot of it under vp run).
+var Root = func() string {
+	if r := os.Getenv("VERIF_ROOT"); r != "" {
+		return r
+	}
+	return "/verif"
+}()
 
 // loadFindings parses /verif/known_findings.txt. Lines:
 //
